@@ -226,7 +226,18 @@ def check_l3(ctx) -> None:
                   f'combined file opened with mode {norm(o.args[1])}: one part overwrites the other')
     # each override is one `name, value` line
     gen_txt = over_txt[id(over[0])]
-    ctx.check("', '.join" in gen_txt and "+ '\\n'" in gen_txt and '.items()' in gen_txt, 'L3',
+    # f-string spelling: f'{name!s}, {value!s}\n' per item
+    fstr_ok = False
+    try:
+        ge = ast.parse(gen_txt, mode='eval').body
+        if isinstance(ge, (ast.ListComp, ast.GeneratorExp)) and isinstance(ge.elt, ast.JoinedStr) and '.items()' in norm(ge.generators[0].iter):
+            parts = ge.elt.values
+            fstr_ok = len(parts) == 4 and isinstance(parts[0], ast.FormattedValue) and isinstance(parts[2], ast.FormattedValue) and \
+                isinstance(parts[1], ast.Constant) and parts[1].value == ', ' and isinstance(parts[3], ast.Constant) and parts[3].value == '\n' and \
+                all(p_.format_spec is None and p_.conversion in (-1, 115) for p_ in (parts[0], parts[2]))
+    except SyntaxError:
+        pass
+    ctx.check(fstr_ok or "', '.join" in gen_txt and "+ '\\n'" in gen_txt and '.items()' in gen_txt, 'L3',
               'GeophiresInputParameters.__init__/override-line-format', f'{rel}:{over[0].lineno}',
               f'override lines are not written as `name, value\\n` per item: `{gen_txt[:80]}`')
 
